@@ -132,54 +132,7 @@ def run(ctx):
                 rep.bad("C22.R2", C, r.ast, bad[1], f"{rel}:{r.lineno}")
             else:
                 rep.ok("C22.R2", C, f"`{norm_src(r.ast)}` returns the tested iterate")
-        # ---- R3
-        flag = "converged"
-        has_flag = any(isinstance(n, ast.Name) and n.id == flag for n in ast.walk(fn))
-        if kind == "raises":
-            if has_flag:
-                fw = FlagWalk(cfg, flag, loud_default, init=U)
-                sil = fw.silent_exits()
-                if sil:
-                    tr = fw.trace(sil[0])
-                    rep.bad("C22.R3", C, tr[-2].ast if len(tr) > 1 and tr[-2].ast is not None else fname,
-                            "the normal exit is reachable with the convergence flag false (must raise)", f"{rel}:{tr[-2].lineno if len(tr) > 1 else fn.lineno}")
-                else:
-                    rep.ok("C22.R3", C, "every normal exit has converged == True; exhaustion raises")
-            else:
-                # loop exhaustion must lead to raise: the loop's exit edge cannot reach the normal exit
-                loops = [n for n in cfg.nodes if n.kind == "iter"]
-                if not loops:
-                    raise AnalysisError(f"{C}: iteration loop not found")
-                lp = loops[0]
-                if cfg.can_reach([(lp, "exit")], cfg.exit):
-                    rep.bad("C22.R3", C, lp.ast.iter, "after exhausting the iteration limit the helper reaches its normal exit instead of raising",
-                            f"{rel}:{lp.lineno}")
-                else:
-                    rep.ok("C22.R3", C, "loop exhaustion leads to raise on every path")
-                # the return inside the loop must be control dependent on a comparison test
-                cd = control_deps(cfg)
-                for r in rets:
-                    tests = [cfg.nodes[t] for t, lab in cd[r.id] if cfg.nodes[t].kind == "test" and isinstance(cfg.nodes[t].ast, ast.Compare)]
-                    if tests:
-                        rep.ok("C22.R3", C, f"`{norm_src(r.ast)}` is guarded by `{norm_src(tests[0].ast)}`")
-                    else:
-                        rep.bad("C22.R3", C, r.ast, "success return is not guarded by an error test", f"{rel}:{r.lineno}")
-        else:
-            fw = FlagWalk(cfg, flag, loud_default, init=U)
-            sil = fw.silent_exits()
-            if sil:
-                tr = fw.trace(sil[0])
-                rep.bad("C22.R3", C, tr[-2].ast if len(tr) > 1 and tr[-2].ast is not None else fname,
-                        "fsolve can return with converged == False without having warned", f"{rel}:{tr[-2].lineno if len(tr) > 1 else fn.lineno}")
-            else:
-                rep.ok("C22.R3", C, "every exit with converged possibly False passes warn(...)")
-            for r in rets:
-                kw = {k.arg: norm_src(k.value) for k in r.ast.value.keywords} if isinstance(r.ast.value, ast.Call) else {}
-                if kw.get("success") == flag:
-                    # the flag returned is the last computed one: no other def of x/f after it
-                    rep.ok("C22.R3", C, f"success={flag} is returned")
-                else:
-                    rep.bad("C22.R3", C, r.ast, f"the result does not report success={flag}", f"{rel}:{r.lineno}")
+        r3_failure_paths(ctx, "C22.R3", rel, fname, kind)
     r4_approx_fprime(ctx)
 
 
@@ -244,7 +197,75 @@ def _views_and_mutations(fn):
     return muts
 
 
-def r5_isolation(ctx):
+def r3_failure_paths(ctx, rule, rel, fname, kind):
+    """non-convergence cannot reach the normal exit silently (helper `fname`; kind 'raises' or 'warns')"""
+    rep = ctx.rep
+    fn = ctx.repo.get(rel, fname)
+    C = f"{rel}:{fname}"
+    cfg = CFG(fn)
+    rd = ReachingDefs(cfg)
+    rets = _returns(cfg)
+    # ---- R3
+    flag = "converged"
+    has_flag = any(isinstance(n, ast.Name) and n.id == flag for n in ast.walk(fn))
+    if kind == "raises":
+        if has_flag:
+            fw = FlagWalk(cfg, flag, loud_default, init=U)
+            sil = fw.silent_exits()
+            if sil:
+                tr = fw.trace(sil[0])
+                rep.bad(rule, C, tr[-2].ast if len(tr) > 1 and tr[-2].ast is not None else fname,
+                        "the normal exit is reachable with the convergence flag false (must raise)", f"{rel}:{tr[-2].lineno if len(tr) > 1 else fn.lineno}")
+            else:
+                rep.ok(rule, C, "every normal exit has converged == True; exhaustion raises")
+        else:
+            # loop exhaustion must lead to raise: the loop's exit edge cannot reach the normal exit
+            loops = [n for n in cfg.nodes if n.kind == "iter"]
+            if not loops:
+                raise AnalysisError(f"{C}: iteration loop not found")
+            lp = loops[0]
+            def certifies(a, lab):
+                """edge of a test that can only be taken when the error measure is a number below the bound: `error < 1` taken as True,
+                `not (error < 1)` taken as False.  The False edge of `error >= 1` does not certify: it is also taken when the error is NaN."""
+                if a.kind != "test":
+                    return False
+                t, want = a.ast, True
+                while isinstance(t, ast.UnaryOp) and isinstance(t.op, ast.Not):
+                    t, want = t.operand, not want
+                return isinstance(t, ast.Compare) and len(t.ops) == 1 and isinstance(t.ops[0], (ast.Lt, ast.LtE)) and lab == want
+            if cfg.can_reach([(lp, "exit")], cfg.exit, edge_ok=lambda a, b, lab: not certifies(a, lab)):
+                rep.bad(rule, C, lp.ast.iter, "after exhausting the iteration limit the helper can reach its normal exit without passing a test `error < bound` that holds "
+                        "(a test of the form `error >= bound` lets a NaN error through): non-convergence / divergence is returned as success",
+                        f"{rel}:{lp.lineno}")
+            else:
+                rep.ok(rule, C, "loop exhaustion leads to raise on every path")
+            # the return inside the loop must be control dependent on a comparison test
+            cd = control_deps(cfg)
+            for r in rets:
+                tests = [cfg.nodes[t] for t, lab in cd[r.id] if cfg.nodes[t].kind == "test" and any(isinstance(w, ast.Compare) for w in ast.walk(cfg.nodes[t].ast))]
+                if tests:
+                    rep.ok(rule, C, f"`{norm_src(r.ast)}` is guarded by `{norm_src(tests[0].ast)}`")
+                else:
+                    rep.bad(rule, C, r.ast, "success return is not guarded by an error test", f"{rel}:{r.lineno}")
+    else:
+        fw = FlagWalk(cfg, flag, loud_default, init=U)
+        sil = fw.silent_exits()
+        if sil:
+            tr = fw.trace(sil[0])
+            rep.bad(rule, C, tr[-2].ast if len(tr) > 1 and tr[-2].ast is not None else fname,
+                    "fsolve can return with converged == False without having warned", f"{rel}:{tr[-2].lineno if len(tr) > 1 else fn.lineno}")
+        else:
+            rep.ok(rule, C, "every exit with converged possibly False passes warn(...)")
+        for r in rets:
+            kw = {k.arg: norm_src(k.value) for k in r.ast.value.keywords} if isinstance(r.ast.value, ast.Call) else {}
+            if kw.get("success") == flag:
+                # the flag returned is the last computed one: no other def of x/f after it
+                rep.ok(rule, C, f"success={flag} is returned")
+            else:
+                rep.bad(rule, C, r.ast, f"the result does not report success={flag}", f"{rel}:{r.lineno}")
+
+
+def r5_isolation(ctx, rule="C22.R5"):
     rep = ctx.rep
     mod = ctx.repo.module(DSV)
     # 1. the maps the library hands to each helper
@@ -264,7 +285,7 @@ def r5_isolation(ctx):
                     if isinstance(n, ast.FunctionDef) and n.name == a0.id:
                         target = n
             if target is None:
-                rep.note(f"C22.R5: map passed at {rel}:{call.lineno} not resolved; treated as possibly in-place")
+                rep.note(f"{rule}: map passed at {rel}:{call.lineno} not resolved; treated as possibly in-place")
                 inplace[h].append((rel, call.lineno, "unresolved map"))
                 continue
             muts = _views_and_mutations(target)
@@ -284,24 +305,24 @@ def r5_isolation(ctx):
             arg = c.args[0] if c.args else None
             fresh = isinstance(arg, ast.BinOp) or (isinstance(arg, ast.Call) and (dotted(arg.func) or getattr(arg.func, "attr", "")).split(".")[-1] in FRESH_CALLS)
             if fresh:
-                rep.ok("C22.R5", C, f"{norm_src(c)}: the map receives a fresh array")
+                rep.ok(rule, C, f"{norm_src(c)}: the map receives a fresh array")
                 continue
             if not isinstance(arg, ast.Name):
-                rep.note(f"C22.R5: {C}: argument `{norm_src(arg)}` not classified")
-                rep.ok("C22.R5", C, f"{norm_src(c)}: argument not a plain iterate name", verdict="not decided", trivial=True)
+                rep.note(f"{rule}: {C}: argument `{norm_src(arg)}` not classified")
+                rep.ok(rule, C, f"{norm_src(c)}: argument not a plain iterate name", verdict="not decided", trivial=True)
                 continue
             other_reads = [n for n in ast.walk(fn) if isinstance(n, ast.Name) and n.id == arg.id and isinstance(n.ctx, ast.Load) and n is not arg]
             if other_reads and inplace[h]:
                 rel, ln, st = inplace[h][0]
-                rep.bad("C22.R5", C, c, f"the live iterate `{arg.id}` is handed to the map and read again afterwards (error estimate / next iterate), but the map passed at "
+                rep.bad(rule, C, c, f"the live iterate `{arg.id}` is handed to the map and read again afterwards (error estimate / next iterate), but the map passed at "
                         f"{rel}:{ln} updates its argument in place (`{st}`): the measured error compares the iterate with itself and the tolerance test is void",
                         f"{DSV}:{c.lineno}")
             elif other_reads:
-                rep.ok("C22.R5", C, f"{norm_src(c)}: live iterate passed, but no map handed to this helper writes through its argument")
+                rep.ok(rule, C, f"{norm_src(c)}: live iterate passed, but no map handed to this helper writes through its argument")
             else:
-                rep.ok("C22.R5", C, f"{norm_src(c)}: `{arg.id}` is not read after the evaluation")
+                rep.ok(rule, C, f"{norm_src(c)}: `{arg.id}` is not read after the evaluation")
     if not any(inplace.values()):
-        rep.note("C22.R5: no in-place map found any more; the isolation requirement is vacuous")
+        rep.note(f"{rule}: no in-place map found any more; the isolation requirement is vacuous")
 
 
 def _killer(cfg, rd, tol):
@@ -381,9 +402,21 @@ def r4_approx_fprime(ctx):
                     dx = s.value
                 else:
                     env[s.targets[0].id] = s.value
+        if dx is None:
+            # not set in the branch: a definition outside the method dispatch (hoisted out of the loop)
+            outer = [n.value for n in walk_no_nested(fn) if isinstance(n, ast.Assign) and isinstance(n.targets[0], ast.Name) and n.targets[0].id == "dx"]
+            dx = outer[-1] if outer else None
         if df is None or dx is None:
             raise AnalysisError(f"approx_fprime[{meth}]: df/dx not found")
         pf, px = points_of_f(df, env), points_of_x(dx)
+        if pf is not None and None not in pf and (px is None or None in px) and meth != "cs":
+            # real-step schemes: the points are xx +- h rounded to floating point, so the realised step differs from the nominal eps by
+            # up to ulp(|x|); dividing by the nominal step leaves a relative error ulp(|x|) / eps in every entry of the Jacobian
+            rep.bad("C22.R4", C, f"[{meth}] df = {norm_src(df)}; dx = {norm_src(dx)}",
+                    f"method '{meth}': df is the difference of f at the points {pf}, but dx = `{norm_src(dx)[:60]}` is not the difference of these points' coordinates "
+                    "(a nominal step instead of the realised one): the quotient is off by ulp(|x|)/eps, which dominates the method's error for large |x| or small eps",
+                    f"{AF}:{df.lineno}")
+            continue
         if pf is None or px is None or None in pf or None in px:
             rep.note(f"C22.R4: approx_fprime[{meth}] df/dx form not recognised: df={norm_src(df)} dx={norm_src(dx)}")
             continue
@@ -426,6 +459,13 @@ MUTANTS += [
                 (DSV, "        x = x_new.copy()\n", "        x = x_new\n")]),
     dict(id="c22-r5-2", what="momentum helper evaluates the map on the live extrapolated iterate", file=DSV,
          old="        xk1 = fun(yk.copy())", new="        xk1 = fun(yk)", expect="C22.R5"),
+]
+MUTANTS += [
+    dict(id="c22-r4-seed", canary=True, what="[seeded by sub-agent] approx_fprime divides by the nominal step (dx hoisted out of the loop)", file=AF,
+         edits=[(AF, "    for i in range(m):\n        if method == \"2-point\":", "    dx = -2 * eps if method == \"3-point\" else eps\n    for i in range(m):\n        if method == \"2-point\":"),
+                (AF, "            dx = x[i] - xx[i]  # recompute dx as exactly representable number\n", ""),
+                (AF, "            dx = x2[i] - x1[i]  # recompute dx as exactly representable number\n", ""),
+                (AF, "            dx = (x1[i] - xx[i]).imag\n", "")], expect="C22.R4"),
 ]
 NEUTRAL = [
     dict(id="c22-n-r5", canary=True, what="only the redundant copies in the error expression removed; the map still gets a copy", file=DSV,
